@@ -192,7 +192,8 @@ def run(rep: Report, ctx: Any) -> str:
         return not ems or any(not ((LX.is_string(e.state) and "f" not in LX.string_info(e.state)[0]) or e.state in (LX.COMMENT, LX.INERT))
                               for e in ems)
 
-    site_nodes = [fr.via for fr in writers + readers]
+    # (a site is the node of the template's tree it was read from - through whichever macros the text is printed)
+    site_nodes = [_orig(fr.node) for fr in writers + readers]
     role: dict[int, str | None] = {}
     for f, lv in prop_loops:
         body = _region_frags(mt, f.body)
@@ -284,10 +285,10 @@ def run(rep: Report, ctx: Any) -> str:
     rep.check(ctor_dom == {True, False}, "R02.1", "model.py.jinja::constructor-keywords", "cls(...) is not called with python_name=python_name for every property",
               where=f"{PKG}/templates/model.py.jinja", lhs=sorted(ctor_dom), rhs="<property.python_name>=<property.python_name> for every property")
     # where from_dict pops: `<local> = ...` is only ever `<local> = <the pop>` (the conversions live in the kinds' construct macros)
-    reader_vias = {id(fr.via) for fr in readers}
+    reader_nodes = {id(_orig(fr.node)) for fr in readers}
     for f, lv in prop_loops:
         body = _region_frags(mt, [f])
-        if not any(id(fr.via) in reader_vias for fr in _stmt_frags([f], (nodes.Assign, nodes.AssignBlock, nodes.Output), ti=mt)):
+        if not any(id(_orig(fr.node)) in reader_nodes for fr in _stmt_frags([f], (nodes.Assign, nodes.AssignBlock, nodes.Output), ti=mt)):
             continue
         for i, a in enumerate(body[:-1]):
             eq = body[i + 1]
@@ -450,13 +451,86 @@ def run(rep: Report, ctx: Any) -> str:
                        "keys()/values() of one dict, range(len(..))) or their lengths are compared on every path to the walk; otherwise the "
                        "values beyond the shorter sequence get no member / property and a valid instance that uses them is not decoded")
     _no_silent_pairing(rep, ix, it)
-    rep.not_decided += ["that construct(transform(x)) == x on values (isoparse(x.isoformat()), which of two overlapping union members accepts a "
+    rep.rule("R02.14", "from_dict takes its copy of the source apart by pops and by nothing else: in the text of from_dict (under any condition of "
+                       "the template; a text put together in a set variable included) the working dict - the local bound to a copy of the "
+                       "source parameter - is bound once, to that copy; no item of it is deleted or assigned, no mutating method other than "
+                       "pop is called on it, and no pop stands as a statement of its own (a value popped and dropped is neither decoded nor "
+                       "kept as an additional property)")
+    _working_dict_frame(rep, mt, top, texts)
+    from .registries import check_enum_class_shared
+
+    rep.rule("R02.15", "a class shared by name holds the values of every declaration that names it: each property keeps its own value list "
+                       "but imports the one class registered under the name (the registration is overwritten by the last builder), so the "
+                       "enum builders may reuse a registered name only for an entry of the same kind with equal values - anything else is "
+                       "an error (the condition of R07.4 / R09.3, needed here because a member missing from the shared class makes from_dict "
+                       "raise for a valid instance)")
+    check_enum_class_shared(rep, ctx, "R02.15")
+    rep.not_decided += ["whether null is a value of a property (which kinds accept None: a guard in from_dict that reads, not writes, the "
+                        "source is value-level behaviour); what a function that is handed the working dict does to it",
+                        "that construct(transform(x)) == x on values (isoparse(x.isoformat()), which of two overlapping union members accepts a "
                         "value, recursion)", "a union member without a type check (const) is decoded in terminal form wherever it stands",
                         "the direction of a loop that walks a member list by a computed index or position (taken to run forwards); in which order "
                         "the parts of a union (anyOf, oneOf, type list) follow each other",
                         "sequences walked in step by index (for i, x in enumerate(a): b[i]) or cut by a slice / islice to another's length; "
                         "a length comparison made by the caller of the function that pairs"]
     return LEVEL
+
+
+# ---- R02.14 --------------------------------------------------------------------------------------------------------------------
+def _working_dict_frame(rep: Report, mt: Any, top: list[Any], texts: Any) -> None:
+    loc = f"{PKG}/templates/{mt.name}"
+    # the text of from_dict in output order, every condition taken (a forbidden statement under any condition is one), a hole written \x00;
+    # the texts a hole can be (a set variable holding code) are read on their own
+    full = ""
+    spans: list[tuple[int, Any]] = []
+    for fr in top:
+        spans.append((len(full), fr))
+        full += fr.text if fr.kind == "data" else "\x00"
+    m = re.search(r"(?m)^[ \t]*def from_dict\(\s*\w+[^,)]*,\s*(\w+)", full)
+    rep.require(m is not None, "def from_dict(cls, <source>) in model.py.jinja")
+    src = m.group(1)
+    end = re.compile(r"(?m)^[ \t]*(?:@\w|def |class )").search(full, m.end())
+    lo, hi = m.start(), (end.start() if end else len(full))
+    body = re.sub(r"(?m)#[^\n]*$", "", full[lo:hi])
+    extra: list[str] = []
+    for at, fr in spans:
+        if fr.kind == "expr" and lo <= at < hi:
+            for alt in texts.expr(fr.node):
+                if any(isinstance(p_, str) for p_ in alt.parts):
+                    extra.append(re.sub(r"\x00\d+\x01", "\x00", texts.render(alt)[0]))
+    copy_of = rf"(?:dict\(\s*{src}\s*\)|\{{\s*\*\*\s*{src}\s*\}}|{src}\.copy\(\)|copy(?:\.copy)?\(\s*{src}\s*\))"
+    # the working dict, by role: what is bound to a copy of the source, and what the declared keys are popped from
+    names = sorted(set(re.findall(rf"(?m)^[ \t]*(\w+)[ \t]*(?::[^=\n]+)?=[ \t]*{copy_of}[ \t]*$", body)) |
+                   {r for t in [body, *extra] for r in re.findall(r"(?<![\w.\x00])(\w+)\.pop\(\s*\"\x00\"", t)})
+    rep.require(names, f"the working dict of from_dict (a local bound to a copy of `{src}`, or the receiver of the pops)")
+    bad: list[str] = []
+    for w in names:
+        nm = rf"(?<![\w.\x00]){re.escape(w)}(?![\w\x00])"
+        for k, t in enumerate([body, *extra]):
+            for d in re.finditer(rf"\bdel\b[^\n]*?{nm}", t):
+                bad.append(f"{' '.join(t[d.start():_value_end(t, d.start())].split())[:80]}: an item of the working dict is deleted")
+            for b in re.finditer(nm + r"\[", t):
+                item = _call_text(t, b.start(), b.end() - 1)
+                if re.match(r"\s*(?:[-+*/%|&^@]|//|\*\*|<<|>>)?=(?!=)", t[b.start() + len(item):]):
+                    bad.append(f"{' '.join(t[b.start():_value_end(t, b.start())].split())[:80]}: an item of the working dict is assigned")
+            for c in re.finditer(nm + r"\.(\w+)\(", t):
+                if c.group(1) in _MUTATORS - {"pop"}:
+                    bad.append(f"{' '.join(_call_text(t, c.start(), c.end() - 1).split())[:80]}: the working dict is changed by .{c.group(1)}()")
+            if k:
+                continue       # (statement structure: only where the text is laid out in lines)
+            for c in re.finditer(rf"(?m)^[ \t]*{nm}\.pop\(", t):
+                call = _call_text(t, c.start(), c.end() - 1)
+                if re.match(r"[ \t]*(?:\n|$)", t[c.start() + len(call):]):
+                    bad.append(f"{' '.join(call.split())[:80]}: a value is popped and dropped")
+            for a in re.finditer(rf"(?m)^[ \t]*(?:for\b[^\n]*?\b)?{nm}[ \t]*(?::[^=\n]+)?=(?!=)[ \t]*", t):
+                v = t[a.end():_value_end(t, a.end())].strip()
+                if re.fullmatch(copy_of, v) is None:
+                    bad.append(f"{' '.join(t[a.start():_value_end(t, a.end())].split())[:80]}: the working dict is bound to something else than a copy of `{src}`")
+    shown = [re.sub("\x00", "<...>", b) for b in bad]
+    rep.check(not bad, "R02.14", "model.py.jinja::from_dict::working-dict-only-popped",
+              "from_dict changes its copy of the source otherwise than by popping the declared keys into the decoders: what is removed or "
+              "replaced there is neither decoded nor kept as an additional property, so a value of a valid instance is lost on decode",
+              where=loc, lhs=shown[:3], rhs=f"<d> = dict({src}); <local> = <d>.pop(\"<property.name>\"...); ... = <d>")
 
 
 # ---- R02.3 ---------------------------------------------------------------------------------------------------------------------
@@ -867,7 +941,7 @@ def _union_fallthrough(rep: Report, jx: Any) -> None:
         t = expr_text(_inline(f.iter, udefs))
         roles = _loop_roles(f, sel if sel is not None else _WHOLE, udefs)      # (not understood: read as a loop over the members themselves)
         decodes = roles is not None and any(isinstance(c.node, nodes.Getattr) and c.node.attr == "construct" and isinstance(c.node.node, nodes.Name) and
-                                            c.node.node.name in roles[1] for c in f.find_all(nodes.Call))
+                                            c.node.node.name in roles[1] for c in _calls_in(ut, [f]))
         # every member that has a construct is decoded, in the order listed: the loop takes the members as they are listed, or (a
         # selection) exactly those whose template has a construct
         ok = sel is not None and not sel.disorder and f.test is None and roles is not None and \
@@ -886,7 +960,7 @@ def _union_fallthrough(rep: Report, jx: Any) -> None:
 
 
 def _fallthrough_of(rep: Report, ut: Any, m: nodes.Macro, ml: nodes.For, loop_ok: bool, aliases: set[str], udefs: dict, loc: str) -> int:
-    frs = list(tplq.frags(ml.body))
+    frs = _region_frags(ut, ml.body)      # (in output order, what the macros of this template printed here print included)
 
     def is_decode(fr: tplq.Frag) -> bool:
         return fr.kind == "expr" and any(isinstance(c, nodes.Call) and isinstance(c.node, nodes.Getattr) and c.node.attr == "construct" and
@@ -898,7 +972,7 @@ def _fallthrough_of(rep: Report, ut: Any, m: nodes.Macro, ml: nodes.For, loop_ok
     # the pass-through flag, false only when no member without construct was met: a namespace attribute set to true where the member's
     # template has no construct, or a selection of the members that takes in exactly those without construct (empty = false)
     flags = set()
-    for s in _stmt_frags(ml.body, (nodes.Assign,)):
+    for s in _stmt_frags(ml.body, (nodes.Assign,), ti=ut):
         a = s.node
         if isinstance(a.target, nodes.NSRef) and isinstance(a.node, nodes.Const) and a.node.value is True:
             envs = list(_emitted_envs(s, _strip_parens))
@@ -1583,12 +1657,19 @@ def _inline(n: Any, defs: dict[str, list[nodes.Node]], depth: int = 0) -> Any:
     if not isinstance(n, nodes.Node):
         return n
     c = copy.copy(n)
+    c._orig = _orig(n)
     for fld, v in n.iter_fields():
         if isinstance(v, list):
             setattr(c, fld, [_inline(x, defs, depth) for x in v])
         elif isinstance(v, nodes.Node):
             setattr(c, fld, _inline(v, defs, depth))
     return c
+
+
+def _orig(n: Any) -> Any:
+    """the node of the template's own tree that n is (a copy of): the body of a called macro is read as a copy in which the parameters
+    are replaced by the arguments, a printed run of text and holes in pieces around the macros it calls"""
+    return getattr(n, "_orig", n)
 
 
 _SAME_ELEMENTS = {"list", "sort", "reverse"}      # filters that hand on the elements of a sequence themselves
@@ -1655,6 +1736,22 @@ def _stmt_frags(body: list[nodes.Node], types: tuple, guards: tuple = (), gnodes
     the macro are statements of the region, under the guards and loops of the call."""
     for n in body:
         v = via if via is not None else n
+        if isinstance(n, nodes.Output) and ti is not None and depth < 4 and any(_bound_body(ti, _unfiltered(x)) is not None for x in n.nodes[:-1]):
+            # an output statement that goes on after a printed macro of this template: in output order, the piece up to the call, what
+            # the macro prints, the rest
+            seg: list[nodes.Node] = []
+            for k, x in enumerate(n.nodes):
+                seg.append(x)
+                mb = _bound_body(ti, _unfiltered(x))
+                if mb is not None or k == len(n.nodes) - 1:
+                    if isinstance(n, types):
+                        piece = nodes.Output(seg, lineno=seg[0].lineno)
+                        piece._orig = _orig(n)
+                        yield _Stmt("stmt", "Output", piece.lineno, guards, gnodes, loops, piece, v, body, scope)
+                    seg = []
+                if mb is not None:
+                    yield from _stmt_frags(mb, types, guards, gnodes, loops, ti, v, mb, depth + 1)
+            continue
         if isinstance(n, types):
             yield _Stmt("stmt", type(n).__name__, n.lineno, guards, gnodes, loops, n, v, body, scope)
         if isinstance(n, nodes.If):
@@ -1984,7 +2081,7 @@ def _pop_forms(ti: Any, texts: _Texts) -> list[_PopForm]:
 
     envs: dict[int, Env] = {}
     stmts = list(_stmt_frags(ti.tree.body, (nodes.Assign, nodes.AssignBlock, nodes.Output), ti=ti))
-    in_block = {id(o) for st in stmts if isinstance(st.node, nodes.AssignBlock) for o in st.node.find_all(nodes.Output)}
+    in_block = {id(_orig(o)) for st in stmts if isinstance(st.node, nodes.AssignBlock) for o in st.node.find_all(nodes.Output)}
     for st in stmts:
         n = st.node
         env = envs.setdefault(id(st.scope), texts.scope_defs(st.scope))
@@ -1994,7 +2091,7 @@ def _pop_forms(ti: Any, texts: _Texts) -> list[_PopForm]:
             if id(n) not in seen:
                 seen.add(id(n))
                 sites.append((st, texts.body(n.body, 0, env)))
-        elif id(n) not in in_block:
+        elif id(_orig(n)) not in in_block:
             for x in n.nodes:
                 if isinstance(x, nodes.TemplateData):
                     if "d.pop(" in x.data and id(st.siblings) not in seen:
@@ -2073,6 +2170,18 @@ def _macro_region(ti: Any, name: str) -> list[nodes.Macro]:
     return [ti.macros[m] for m in seen]
 
 
+def _calls_in(ti: Any, body: list[nodes.Node], depth: int = 0) -> Iterator[nodes.Call]:
+    """every call made in the statements `body`, those made by the macros of this template called there included (read with the
+    parameters replaced by the arguments, so that a template or a property handed to a private macro is still the caller's)"""
+    for n in body:
+        for c in [n, *n.find_all(nodes.Call)]:
+            if isinstance(c, nodes.Call):
+                yield c
+                mb = _bound_body(ti, c) if depth < 4 else None
+                if mb is not None:
+                    yield from _calls_in(ti, mb, depth + 1)
+
+
 def _inner_aliases(m: nodes.Macro, defs: dict[str, list[nodes.Node]]) -> dict[str, str]:
     """{alias: text of X} for every `{% import "property_templates/" + X.template as alias %}` of the macro"""
     out: dict[str, str] = {}
@@ -2097,7 +2206,7 @@ def _delegated(ti: Any, macro: str) -> set[str]:
             roles = _loop_roles(f, sel, defs) if sel is not None else None
             for a in (roles[1] if roles else ()):
                 al.setdefault(a, roles[0])
-        for c in m.find_all(nodes.Call):
+        for c in _calls_in(ti, m.body):
             if isinstance(c.node, nodes.Getattr) and isinstance(c.node.node, nodes.Name) and c.node.node.name in al:
                 x = al[c.node.node.name]
                 first = c.args[0] if c.args else next((k.value for k in c.kwargs if k.key == "property"), None)
